@@ -201,6 +201,18 @@ def run(ctx):
     # Pointer / Peek inside a delimited region act on a BytesIOWithOffsets: its tell/seek translation (shared with C08.R3)
     from . import C08
     C08.substream_class_checks(ctx, "C09.R2")
+    # ... or, inside a bit-level region, on a RestreamedBytesIO: tell() counts exactly what was handed out, a read that meets the end hands
+    # out nothing and moves nothing, seek() accepts only the current position (shared with C10.R4) -- what a failed alternative relies on to rewind
+    from ..core import Ctx as _Ctx
+    from . import C10
+    sub = _Ctx("C10", ctx.tier, ctx.root, model=ctx.model)
+    sub._summ = summariser(ctx)
+    C10.run(sub)
+    for e in sub.errors:
+        ctx.error("shared C10 rules: " + e)
+    for o in sub.obligations:
+        if o.rule == "C10.R4":
+            ctx.ob("C09.R2", o.where, o.ok, o.what, key=o.key, loc=o.loc, detail=o.detail)
     # R6: generated templates (engine T)
     try:
         from . import C09_templates
